@@ -6,7 +6,7 @@
 From Coq Require Import List ZArith Bool Arith Permutation Sorted.
 From YV Require Import Common.Corr Model.Queries Model.Streams
   Lemmas.QueriesLaws Lemmas.QueriesOrder Lemmas.QueriesGroup Lemmas.QueriesInsert
-  Lemmas.QueriesDictSet Lemmas.StreamsSteps Lemmas.StreamsPipeline Lemmas.StreamsMore Lemmas.StreamsGeneric Lemmas.StreamsAll Lemmas.StreamsMore2.
+  Lemmas.QueriesDictSet Lemmas.StreamsSteps Lemmas.StreamsPipeline Lemmas.StreamsMore Lemmas.StreamsGeneric Lemmas.StreamsAll Lemmas.StreamsMore2 Lemmas.QueriesStrings.
 Import ListNotations.
 
 (* orderBy / thenBy with any ascending/descending flags: the output is a
@@ -137,6 +137,26 @@ Theorem C13_index_of : forall (p : val -> bool) l,
    (exists k x, last_index_from 0 p (-1) l = (0 + Z.of_nat k)%Z /\ nth_error l k = Some x /\ p x = true /\
                 forallb (fun y => negb (p y)) (skipn (S k) l) = true)).
 Proof. exact (fun p l => conj (index_of_spec p l) (last_index_from_spec p l 0 (-1))). Qed.
+
+(* ---- strings and dictionaries as elements ----------------------------------------------------- *)
+(* orderBy on string keys: strings are ordered by code points (C13_order_by holds for them as for every key:
+   the comparator is a strict weak order on the whole value universe); null < numbers < strings *)
+Theorem C13_string_keys : forall a b z,
+  val_ltb (VStr a) (VStr b) = (match lcmp a b with Lt => true | _ => false end) /\
+  val_gtb (VStr a) (VStr b) = (match lcmp a b with Gt => true | _ => false end) /\
+  lcmp a a = Eq /\ (lcmp a b = Eq -> a = b) /\ lcmp b a = CompOpp (lcmp a b) /\
+  (forall c, lcmp a b = Lt -> lcmp b c = Lt -> lcmp a c = Lt) /\
+  val_ltb VNull (VInt z) = true /\ val_ltb (VInt z) (VStr a) = true.
+Proof.
+  exact (fun a b z => conj (proj1 (string_order a b)) (conj (proj2 (string_order a b)) (conj (lcmp_refl a) (conj (lcmp_eq a b)
+           (conj (lcmp_antisym a b) (conj (fun c => lcmp_trans a b c) (conj (proj1 (null_int_string_order z a)) (proj1 (proj2 (null_int_string_order z a)))))))))).
+Qed.
+
+(* mergeWith on nested dictionaries (any mergers, any maxLevels): whenever it succeeds, the result has the keys of
+   the left dictionary in their order, followed by the keys only the right one has *)
+Theorem C13_merge_with_keys : forall fuel d1 d2 lm im ml r, merge_dicts fuel d1 d2 lm im ml = Ok r ->
+  map fst r = map fst d1 ++ map fst (filter (fun kv => match dict_get_l (fst kv) (firstn (length d1) r) with Some _ => false | None => true end) d2).
+Proof. exact merge_dicts_keys. Qed.
 
 (* ---- persistent dict updates and set algebra ------------------------------------------ *)
 (* dict.set: the written key reads back the new value, every other key is untouched, a key
